@@ -363,6 +363,60 @@ class Fault:
         self.arg = arg
 
 
+PROCFS_ROOT = "/proc"  # default for new kernels; runner sets it per case
+_WRONG_PROCFS = "/sys/sim-literal-proc-while-PROCFS_PATH-is-elsewhere"
+
+
+def _to_internal(root, path):
+    """psutil's view -> simulated namespace, when PROCFS_PATH is `root`."""
+    isb = isinstance(path, bytes)
+    s = path.decode("utf-8", "surrogateescape") if isb else path
+    if not isinstance(s, str):
+        return path
+    if s == root or s.startswith(root + "/"):
+        s = "/proc" + s[len(root):]
+    elif s == "/proc" or s.startswith("/proc/"):
+        s = _WRONG_PROCFS + s[5:]
+    else:
+        return path
+    return s.encode("utf-8", "surrogateescape") if isb else s
+
+
+def _to_external(root, path):
+    if isinstance(path, str) and (path == "/proc" or path.startswith("/proc/")):
+        return root + path[5:]
+    return path
+
+
+class _Moved:
+    """Proxy translating the path argument of the named methods (and the
+    paths they return) between psutil's view and the simulated namespace."""
+
+    def __init__(self, inner, root, methods, sub=None):
+        self._inner = inner
+        self._root = root
+        self._methods = methods
+        if sub:
+            self.path = _Moved(inner.path, root, sub)
+
+    def __getattr__(self, name):
+        a = getattr(self._inner, name)
+        if name not in self._methods:
+            return a
+        root = self._root
+
+        def call(path, *args, **kw):
+            r = a(_to_internal(root, path), *args, **kw)
+            if name in ("glob", "iglob"):
+                return [_to_external(root, x) for x in r]
+            if name == "realpath":
+                return _to_external(root, r)
+            if name == "walk":
+                return ((_to_external(root, t), d, f) for t, d, f in r)
+            return r
+        return call
+
+
 class Kernel:
     def __init__(self, ncpus=4, btime=1700000000):
         self.procs = {}  # pid -> Proc
@@ -391,6 +445,10 @@ class Kernel:
         self.files["/proc"] = DIR
         self.files["/sys"] = DIR
         self.files["/dev"] = DIR
+        # where the caller has told psutil the procfs is (psutil.PROCFS_PATH):
+        # with another root, that root is served from the simulated /proc and
+        # the literal /proc does not exist (see _Moved)
+        self.procfs_root = PROCFS_ROOT
         self.lock = threading.RLock()
         self.access_hook = None  # callable(entry) for schedulers
         self.mounts_real_path = None
@@ -1428,13 +1486,25 @@ def installed(kernel, reset=True, virtual_time=True):
     simglob = SimGlob(kernel, simos)
     simtime = SimTime(kernel)
     saved = []
+    sim_open = _make_open(kernel)
+    kernel.simos = simos
+    root = kernel.procfs_root
+    if root != "/proc":
+        simos = _Moved(simos, root, ("stat", "lstat", "access", "listdir", "readlink", "walk", "statvfs"),
+                       sub=("exists", "lexists", "isfile", "isdir", "islink", "realpath"))
+        simglob = _Moved(simglob, root, ("glob",))
+        _inner_open = sim_open
+
+        def sim_open(file, *a, **kw):
+            return _inner_open(_to_internal(root, file), *a, **kw)
 
     def patch(mod, name, value, create=False):
         if hasattr(mod, name) or create:
             saved.append((mod, name, getattr(mod, name, _MISSING)))
             setattr(mod, name, value)
 
-    patch(C, "open", _make_open(kernel), create=True)
+    patch(C, "open", sim_open, create=True)
+    patch(psutil, "PROCFS_PATH", root)
     patch(C, "os", simos)
     if not kernel.ipv6_bindable and hasattr(C, "socket"):
         patch(C, "socket", _NoV6SocketModule(C.socket))
@@ -1458,7 +1528,6 @@ def installed(kernel, reset=True, virtual_time=True):
         d[3] = simtime.monotonic
         d[5] = simtime.sleep
         PX.wait_pid.__defaults__ = tuple(d)
-    kernel.simos = simos
     kernel.simtime = simtime
     if reset:
         reset_psutil_state(psutil)
